@@ -134,7 +134,8 @@ func (s *Service) ModifyStance(data info.ModifyAttribute) error {
 	}
 	attr := t.attributes
 
-	stats := s.Stats(data.Target)
+	// the stance damage bonus belongs to whoever deals the stance damage (the source)
+	stats := s.Stats(data.Source)
 	newStance := attr.Stance + data.Amount*(1+stats.GetProperty(prop.AllStanceDMGPercent))
 	return s.SetStance(info.ModifyAttribute{
 		Key:    data.Key,
